@@ -51,6 +51,7 @@ func ruleC03SameTest(p *Prog, r *Res) {
 		}
 		return ""
 	}
+	wholeElem := map[string]bool{} // element types compared as whole values through slices.Equal
 	sitesOf := func(f *Fn) []*site {
 		info := f.Pkg.TypesInfo
 		var out []*site
@@ -83,6 +84,26 @@ func ruleC03SameTest(p *Prog, r *Res) {
 			return nil, ""
 		}
 		inspectShallow(f.Body(), func(x ast.Node) bool {
+			// slices.Equal(a.F, b.F) compares the field (and, element-wise, whole values of the element type)
+			if c, ok := x.(*ast.CallExpr); ok && len(c.Args) >= 2 {
+				if fn := p.Callee(f.Pkg, c); fn != nil && fn.Pkg() != nil && (fn.FullName() == "slices.Equal" || fn.FullName() == "slices.EqualFunc" || fn.FullName() == "reflect.DeepEqual" || fn.FullName() == "bytes.Equal") {
+					ox, fx := fieldOf(c.Args[0])
+					oy, fy := fieldOf(c.Args[1])
+					if ox != nil && oy != nil && ox != oy && fx == fy && elemType(ox.Type()) == elemType(oy.Type()) {
+						st := find(ox, oy)
+						st.fields[fx] = true
+						if st.pos == nil {
+							st.pos = c
+						}
+						if fn.FullName() != "slices.EqualFunc" {
+							if sl, ok := info.TypeOf(c.Args[0]).Underlying().(*types.Slice); ok && elemType(sl.Elem()) != "" {
+								wholeElem[elemType(sl.Elem())] = true
+							}
+						}
+					}
+				}
+				return true
+			}
 			be, ok := x.(*ast.BinaryExpr)
 			if !ok {
 				return true
@@ -149,6 +170,11 @@ func ruleC03SameTest(p *Prog, r *Res) {
 			for k := range s.fields {
 				ref[tn][k] = true
 			}
+		}
+	}
+	for tn := range wholeElem {
+		if ref[tn] == nil {
+			ref[tn] = allFields(tn)
 		}
 	}
 	// whole-struct comparison of variables through an index expression (ce.Variables[j] != oe.Variables[j])
